@@ -301,7 +301,18 @@ def gapedge_pair(rng):
     return fin(s, c1, e + g), fin(s if rng.random() < 0.9 else 1 - s, c2, e)
 
 
+def cohort_pair(rng):
+    """the same magnitude in two quanta a chosen gap apart (every gap 1..33), same or opposite signs, either operand order"""
+    g = rng.randint(1, 33); q = rng.randint(1, 34 - g); c = coeff(rng, q)
+    e = rng.randint(QMIN, QMAX - g)
+    s1 = rng.randint(0, 1); s2 = s1 if rng.random() < 0.5 else 1 - s1
+    x, y = fin(s1, c * 10 ** g, e), fin(s2, c, e + g)
+    return (x, y) if rng.random() < 0.5 else (y, x)
+
+
 def cmp_pair(rng):
+    k = rng.random()
+    if k < 0.03: return cohort_pair(rng)
     k = rng.random()
     if k < 0.03:      # same sign and exponent field, one coefficient field >= 10^34 (denotes zero) against a canonical number / zero
         e = expo(rng); s_ = rng.randint(0, 1)
@@ -1065,10 +1076,45 @@ def gen_operators(rng, n):
         yield line(op, 0, 0, x, y)
 
 
+def gen_status_exact(rng, n):
+    """C14: exact results on the paths where an operation decides 'was anything lost?': integers written with many fractional zeros through every
+    to-integer / round-to-integral form, exact subnormal results of mul / div / scaleb / ldexp / quantize / parse (digits beyond the 34th all zero):
+    an implementation that consults the caller's inexact bit there changes value or flags with the entry word"""
+    rops = ['rint', 'nearbyint', 'rint_ne', 'rint_na', 'rint_dn', 'rint_up', 'rint_tz', 'lrint', 'llrint', 'lround', 'llround']
+    for _ in range(n):
+        k = rng.random(); md = rng.choice(MODES)
+        if k < 0.4:
+            v = rng.choice([rng.randint(1, 9), rng.randint(1, 10 ** rng.randint(1, 9))]); kz = rng.randint(1, 34 - ndig(v))
+            x = fin(rng.randint(0, 1), v * 10 ** kz, -kz)
+            if rng.random() < 0.7:
+                t, w, sg = rng.choice(INT_TYPES); yield line('to_%s_%s%s' % (t, rng.choice(['', 'x', 'x']), rng.choice(INT_KINDS)), 0, 0, x)
+            else: yield line(rng.choice(rops), md, 0, x)
+        elif k < 0.55:     # exact subnormal products / quotients
+            a = coeff(rng, rng.randint(1, 10)); b = coeff(rng, rng.randint(1, 10)); z = rng.randint(0, 10)
+            e = QMIN + rng.randint(0, 5)
+            if rng.random() < 0.5:
+                e1 = rng.randint(QMIN, e - QMIN) if e - QMIN >= QMIN else QMIN
+                yield line('mul', md, 0, fin(rng.randint(0, 1), a * 10 ** z, max(QMIN, min(QMAX, e1 - z))), fin(rng.randint(0, 1), b, max(QMIN, min(QMAX, e - e1))))
+            else:
+                e2 = rng.randint(-100, 100)
+                yield line('div', md, 0, fin(rng.randint(0, 1), a * b * 10 ** z, max(QMIN, min(QMAX, e + e2 - z))), fin(rng.randint(0, 1), b, e2))
+        elif k < 0.75:     # exact scaleb / ldexp into the subnormal range (only zeros shifted out)
+            q = rng.randint(1, 20); c = coeff(rng, q); z = rng.randint(1, 34 - q); e = rng.randint(-200, 200)
+            nn = QMIN - z - e + rng.choice([0, 0, 1, rng.randint(0, z)])
+            yield line(rng.choice(['scaleb', 'ldexp', 'scalebln']), md, 0, fin(rng.randint(0, 1), c * 10 ** z, e), '%x' % (nn & 0xffffffff))
+        elif k < 0.9:      # literals with more than 34 digits, all zero beyond, exact subnormal or normal value
+            q = rng.randint(1, 30); ds = str(coeff(rng, q)) + '0' * rng.randint(35 - q, 60)
+            E = rng.choice([QMIN - (len(ds) - q) + rng.randint(0, 3), rng.randint(-100, 100)])
+            yield '%s %d 0 %s' % (rng.choice(['parse', 'parse', 'fromstr2']), md, hexs(rng.choice(['', '-']) + ds + 'E' + str(E)))
+        else:              # exact quantize dropping many zeros
+            q = rng.randint(1, 10); c = coeff(rng, q); z = rng.randint(1, 34 - q); e = rng.randint(-100, 100)
+            yield line('quantize', md, 0, fin(rng.randint(0, 1), c * 10 ** z, e), fin(0, 1, e + rng.randint(1, z)))
+
+
 def gen_all_ops_status(rng, n):
     """C14: every flag-taking operation with all 64 incoming status values (quick: 6 per case)"""
     fams = [gen_addsub, gen_mul, gen_div, gen_sqrt, gen_fma, gen_rint, gen_toint, gen_quantize, gen_rem, gen_scaleb, gen_logb, gen_next, gen_minmax, gen_frombin, gen_parse, gen_cmp,
-            gen_fdim, gen_consts, gen_quantum_queries, gen_nan]
+            gen_fdim, gen_consts, gen_quantum_queries, gen_nan, gen_status_exact, gen_status_exact, gen_status_exact]
     per = max(1, n // (len(fams) * 6))
     for f in fams:
         for l in f(rng, per):
